@@ -1382,6 +1382,12 @@ func (up4 *UP4) modifyUP4ForwardingConfiguration(pdrs []pdr, allFARs []far, qers
 					continue
 				}
 
+				// PDRs with the same sessions table key share one entry (its INSERT is tolerated above as
+				// ALREADY_EXISTS): when they are deleted, the entry is already gone for all but the first.
+				if methodType == p4.Update_DELETE && status.GetCanonicalCode() == int32(codes.NotFound) {
+					continue
+				}
+
 				return ErrOperationFailedWithReason("applying table entries to UP4", p4Error.Error())
 			}
 		}
